@@ -4214,7 +4214,15 @@ fn eval_built_in_call(
                 }
             };
 
-            let v = check_snippet(snippet, PathBuf::from(path_s), env);
+            // The VFS only accepts absolute paths and built-in file names.
+            let path = PathBuf::from(&path_s);
+            let path = if path.is_relative() && !path_s.starts_with("__") {
+                env.working_directory.join(path)
+            } else {
+                path
+            };
+
+            let v = check_snippet(snippet, path, env);
             if expr_value_is_used {
                 env.push_value(v);
             }
